@@ -964,8 +964,10 @@ class Vector():
 				result_values = tuple(None if (x is None or y is None) else op_func(x, y) for x, y in zip(self, other, strict=True))
 			except TypeError:
 				# Incompatible types - fall back to object dtype with raw tuples
-				result_values = tuple((x, y) for x, y in zip(self, other, strict=True))
-				return Vector(result_values, dtype=DataType(object), name=None, as_row=self._display_as_row)
+				# (a None on either side stays None, as in every other elementwise result)
+				result_values = tuple(None if (x is None or y is None) else (x, y) for x, y in zip(self, other, strict=True))
+				return Vector(result_values, dtype=DataType(object, nullable=any(v is None for v in result_values)),
+					name=None, as_row=self._display_as_row)
 			result_dtype = infer_dtype(result_values)
 			return Vector(result_values,
 							dtype=result_dtype,
@@ -980,8 +982,10 @@ class Vector():
 				result_values = tuple(None if (x is None or y is None) else op_func(x, y) for x, y in zip(self, other, strict=True))
 			except TypeError:
 				# Incompatible types - fall back to object dtype with raw tuples
-				result_values = tuple((x, y) for x, y in zip(self, other, strict=True))
-				return Vector(result_values, dtype=DataType(object), name=None, as_row=self._display_as_row)
+				# (a None on either side stays None, as in every other elementwise result)
+				result_values = tuple(None if (x is None or y is None) else (x, y) for x, y in zip(self, other, strict=True))
+				return Vector(result_values, dtype=DataType(object, nullable=any(v is None for v in result_values)),
+					name=None, as_row=self._display_as_row)
 			result_dtype = infer_dtype(result_values)
 			return Vector(result_values,
 				dtype=result_dtype,
